@@ -6,6 +6,10 @@ HERE = os.path.dirname(os.path.dirname(os.path.abspath(__file__)))
 props = [json.loads(l) for l in open(os.path.join(HERE, "properties.jsonl"))]
 
 CLAIMS = {
+ "C11": dict(
+  technique="custom static checker: exhaustive constant folding of the wait-status decoder (with glibc's W* macro expansions) over every exit status, signal, stop signal and the continued status; per-iteration path enumeration of the wait loop as a transition system over (waitpid result, errno, retry counter vs bound, status class); must-end-in-_exit rule for the child branch; routing rules in the runner",
+  text="Decides, for every possible status word class and every outcome of fork/waitpid per iteration, that exactly one failure is recorded for exit!=0 / signal / stop and none for exit 0, that errors and EINTR past a constant bound report once and return while EINTR below it only retries, that the status is never decoded after a failed wait, that stopped children are continued and the loop ends only on exit or signal, that the child branch always ends in _exit with the failure-count delta, and that every test is routed through the separate-process runner under SetJmp when -p is on. Kernel behaviour per signal is not decided.",
+  note="Trusted: glibc wait-status encoding and W* macros as expanded in the analysed unit; POSIX fork/waitpid/kill semantics."),
  "C05": dict(
   technique="custom static checker: constant folding (with wrap detection) of the composed size computations of allocMemory/reallocMemory at the largest sizes their guards accept, at every residue mod 8, at the 2^32/2^63 boundaries and for calloc pairs around the overflow boundary; dominance-based null-test rule for every use of a may-be-NULL allocation result; sibling rule over the 18 operator new implementations; must-precede rule for the realloc failure path",
   text="Decides that no size or count x size computation on the allocation paths can wrap for any request (monotone arithmetic folded at the guard boundary and residues), that the bookkeeping offset is pointer-aligned and leaves room for guard bytes and record in both layouts, that allocation results are null-tested before use, that throwing operator new variants throw on NULL and nothrow ones never do, that calloc zero-fills exactly its product and strdup/strndup size and terminate their copy. Three realloc-path defects are recorded as known findings. Alignment/disjointness of platform blocks and realloc content preservation are trusted.",
